@@ -115,9 +115,11 @@ def lifecycle(ctx, thorough):
         import gen_sflow
         r = ctx.tlc_model("Lifecycle", "Lifecycle.cfg", want_cases=True, workers=2)
         ctx.tlc_must_fail("Lifecycle", "LifecycleWaits.cfg", expect="CleanExit", workers=2)
-        cases = sorted(r.cases, key=lambda c: (sorted(c["enabled"]), c["producer"]))
+        cases = sorted(r.cases, key=lambda c: (sorted(c["enabled"]), c["producer"], c["bind"]))
         if not thorough:
-            keep = [c for c in cases if len(c["enabled"]) in (0, 4)] + ctx.rng.sample([c for c in cases if 0 < len(c["enabled"]) < 4], 6)
+            keep = [c for c in cases if len(c["enabled"]) in (0, 4) and c["bind"] == "wildcard"]
+            keep += [c for c in cases if len(c["enabled"]) == 4 and c["producer"] and c["bind"] != "wildcard"]
+            keep += ctx.rng.sample([c for c in cases if 0 < len(c["enabled"]) < 4], 6)
             cases = keep
         binary = ctx.go_build_bin("vflow")
         gs = gen_sflow.Gen(ctx.rng)
@@ -140,6 +142,12 @@ def lifecycle(ctx, thorough):
             sink = e2e.Sink()
             sink.start()
             extra = "".join("%s-enabled: %s\n" % (p, "true" if p in c["enabled"] else "false") for p in ("ipfix", "netflow9", "netflow5", "sflow"))
+            if c["bind"] != "wildcard":
+                extra += "".join('%s-addr: "%s"\n' % (p, c["bind"]) for p in ("ipfix", "netflow9", "netflow5", "sflow"))
+            import socket as _socket
+            v6 = c["bind"] == "::1"
+            tx = _socket.socket(_socket.AF_INET6 if v6 else _socket.AF_INET, _socket.SOCK_DGRAM)
+            dst = "::1" if v6 else "127.0.0.1"
             col = e2e.Collector(ctx, binary, d, sink.port, workers=2, extra_cfg=extra, producer=c["producer"])
             senders = e2e.Senders(1)
             src = sorted(senders.socks)[0]
@@ -149,7 +157,7 @@ def lifecycle(ctx, thorough):
                 for proto in ("ipfix", "netflow9", "netflow5", "sflow"):
                     for m in good[proto]:
                         try:
-                            senders.send(src, col.ports[proto], m)
+                            tx.sendto(bytes(m), (dst, col.ports[proto]))
                         except OSError:
                             pass          # nobody listens: the kernel says so on the second send
                         time.sleep(0.03)
@@ -172,6 +180,7 @@ def lifecycle(ctx, thorough):
                 col.kill()
                 sink.close()
                 senders.close()
+                tx.close()
             out.append(obs)
         return {"runs": out}
     except Exception as e:
@@ -184,8 +193,8 @@ def judge_lifecycle(ctx, res):
         raise vlib.Infra("lifecycle stage: %s" % res.get("error", "did not finish"))
     for o in res["runs"]:
         c = o["case"]
-        what = "enabled protocols %s, producer %s" % (sorted(c["enabled"]) or "none", "on" if c["producer"] else "off")
-        ctx.count(["lifecycle", sorted(c["enabled"]), c["producer"]])
+        what = "enabled protocols %s, producer %s, listeners at %s" % (sorted(c["enabled"]) or "none", "on" if c["producer"] else "off", c["bind"])
+        ctx.count(["lifecycle", sorted(c["enabled"]), c["producer"], c["bind"]])
         if o.get("start_error"):
             ctx.violation("collector configured with %s did not come up: %s" % (what, o["start_error"]), {"case": c}, key="life:start")
             continue
